@@ -442,8 +442,10 @@ class Helper:
                 self.name, '_%s%s' % (self.scope.lstrip('_'), self.name))
         return isinstance(f, ast.Name) and f.id == self.name
 
-    def bind(self, call, caller_names):
-        """-> (env for substitution, prologue statements, local renames)"""
+    def bind(self, call, caller_names, single_use=None):
+        """-> (env for substitution, prologue statements, local renames);
+        single_use: {param: number of occurrences} of an expression helper
+        -- an argument used exactly once may be substituted as it is"""
         args = list(call.args)
         if any(isinstance(a, ast.Starred) for a in args):
             raise NotInlinable('starred call')
@@ -489,6 +491,10 @@ class Helper:
                 ren[loc] = ast.Name(id=new, ctx=ast.Load())
             caller_names.add(new)
         for p, a in actual.items():
+            if single_use is not None and p not in self.assigned and \
+                    single_use.get(p, 0) <= 1:
+                env[p] = a
+                continue
             if p in self.assigned or not _simple_arg(a):
                 # evaluated once, at the call, like the real argument
                 new = p
@@ -659,7 +665,11 @@ class _Inliner:
             def visit_Call(self, n):
                 self.generic_visit(n)
                 if h.matches(n):
-                    env, pro = h.bind(n, set(names))
+                    uses = {}
+                    for m_ in ast.walk(expr):
+                        if isinstance(m_, ast.Name):
+                            uses[m_.id] = uses.get(m_.id, 0) + 1
+                    env, pro = h.bind(n, set(names), single_use=uses)
                     if pro:
                         raise NotInlinable('non-simple argument to an '
                                            'expression helper')
